@@ -3,6 +3,7 @@ CONSTANTS HC = 8  Mins = {3, 5}  Families = {"planes", "planes2"}
 INIT Init
 NEXT Next
 INVARIANT AtMostTwoRows
+INVARIANT AverageIsMeanOfKeptRows
 INVARIANT StrictlyIncreasing
 INVARIANT OnlyCandidates
 INVARIANT NoThinCells
